@@ -286,13 +286,13 @@ Proof. unfold decode_sopp. nf. Qed.
 Lemma nf_smem len w0 w1 i : 8 <= len -> nofault (decode_smem len w0 w1 i).
 Proof. intros H. unfold decode_smem. apply nf_bind; [apply nf_read_hi; auto|intros ? ?]. nf. Qed.
 Lemma nf_flat c len w0 w1 i : 8 <= len -> nofault (decode_flat c len w0 w1 i).
-Proof. intros H. unfold decode_flat. apply nf_bind; [apply nf_read_hi; auto|intros ? ?]. nf. Qed.
+Proof. intros H. unfold decode_flat, decode_flat_body. apply nf_bind; [apply nf_read_hi; auto|intros ? ?]. nf. Qed.
 Lemma nf_ds len w0 w1 i : 8 <= len -> nofault (decode_ds len w0 w1 i).
-Proof. intros H. unfold decode_ds. apply nf_bind; [apply nf_read_hi; auto|intros ? ?]. nf. Qed.
+Proof. intros H. unfold decode_ds, decode_ds_body. apply nf_bind; [apply nf_read_hi; auto|intros ? ?]. nf. Qed.
 Lemma nf_vop3a len w0 w1 i : 8 <= len -> nofault (decode_vop3a len w0 w1 i).
-Proof. intros H. unfold decode_vop3a. apply nf_bind; [apply nf_read_hi; auto|intros ? ?]. nf. Qed.
+Proof. intros H. unfold decode_vop3a, decode_vop3a_body. apply nf_bind; [apply nf_read_hi; auto|intros ? ?]. nf. Qed.
 Lemma nf_vop3b len w0 w1 i : 8 <= len -> nofault (decode_vop3b len w0 w1 i).
-Proof. intros H. unfold decode_vop3b. apply nf_bind; [apply nf_read_hi; auto|intros ? ?]. nf. Qed.
+Proof. intros H. unfold decode_vop3b, decode_vop3b_body. apply nf_bind; [apply nf_read_hi; auto|intros ? ?]. nf. Qed.
 
 Lemma nf_vop2 len w0 w1 i : nofault (decode_vop2 len w0 w1 i).
 Proof.
@@ -331,4 +331,18 @@ Proof.
     | |- nofault (decode_vop3a _ _ _ _) => apply nf_vop3a; apply H8'; reflexivity
     | |- nofault (decode_vop3b _ _ _ _) => apply nf_vop3b; apply H8'; reflexivity
     end.
+Qed.
+
+(* ------------------------------------------------------------------ reference table *)
+
+Definition row_eqb (a b : row) : bool :=
+  (r_opcode a =? r_opcode b) && fmt_eqb (r_fmt a) (r_fmt b) && String.eqb (r_name a) (r_name b)
+  && (r_unit a =? r_unit b) && (r_dstw a =? r_dstw b) && (r_src0w a =? r_src0w b)
+  && (r_src1w a =? r_src1w b) && (r_src2w a =? r_src2w b) && (r_sdstw a =? r_sdstw b).
+
+Lemma row_eqb_eq a b : row_eqb a b = true -> a = b.
+Proof.
+  unfold row_eqb. rewrite !andb_true_iff. intros [[[[[[[[H1 H2] H3] H4] H5] H6] H7] H8] H9].
+  apply N.eqb_eq in H1, H4, H5, H6, H7, H8, H9. apply fmt_eqb_eq in H2. apply String.eqb_eq in H3.
+  destruct a, b; simpl in *; congruence.
 Qed.
